@@ -52,6 +52,7 @@ pub fn generate(prop: &str, scenario: &str, seed: u64, run: u64) -> (Config, Vec
                 systematic_hist(prop, run / 2)
             } else {
                 let (cfg, mut ops) = gen_hist(prop, &mut rng);
+                add_preempted_searches(&cfg, &mut ops, &mut rng);
                 if prop == "C01" {
                     // the code point of the run: every scalar value below U+0530 gets its turn in a
                     // title and in queries (class lookup, splitting, folding and case mapping all
@@ -70,6 +71,40 @@ pub fn generate(prop: &str, scenario: &str, seed: u64, run: u64) -> (Config, Vec
         "replica" => gen_replica(prop, &mut rng),
         "scratch" => gen_scratch(prop, &mut rng, run),
         _ => (Config { scenario: scenario.to_string(), threads: 1, capacity: None }, Vec::new()),
+    }
+}
+
+/// Mid-search preemption: pairs of searches this run already makes on two different stores are
+/// repeated later with the first one parked inside the library while the second runs. Drawn from
+/// a PRNG stream of its own after the history is complete, so the history itself is what it was
+/// before this fault kind existed.
+fn add_preempted_searches(cfg: &Config, ops: &mut Vec<Op>, rng: &mut Rng) {
+    let mut prng = Rng::from_u64(crate::rng::mix(rng.next_u64(), 0x5851_f42d_4c95_7f2d));
+    if cfg.threads < 2 || !prng.chance(2, 3) {
+        return;
+    }
+    let searches: Vec<(usize, usize, String)> = ops.iter().enumerate().filter_map(|(i, o)| match o {
+        Op::Search { s, q, .. } => Some((i, *s, q.clone())),
+        _ => None,
+    }).collect();
+    if searches.len() < 2 {
+        return;
+    }
+    let mut inserts: Vec<(usize, Op)> = Vec::new();
+    for _ in 0..prng.range(1, 4) {
+        let (i, s, q) = prng.pick(&searches).clone();
+        let others: Vec<&(usize, usize, String)> = searches.iter().filter(|x| x.1 != s).collect();
+        if others.is_empty() {
+            return;
+        }
+        let (j, s2, q2) = (*prng.pick(&others)).clone();
+        let at = match prng.below(4) { 0 => 1, 1 => prng.range(1, 4), 2 => prng.range(1, 30), _ => prng.range(1, 400) };
+        let pos = prng.range(i.max(j) + 1, ops.len());
+        inserts.push((pos, Op::PSearch { s, s2, q, q2, at }));
+    }
+    inserts.sort_by(|a, b| b.0.cmp(&a.0));
+    for (pos, o) in inserts {
+        ops.insert(pos, o);
     }
 }
 
